@@ -347,7 +347,7 @@ func runC20(c *Ctx) {
 		var loop *ast.RangeStmt
 		ast.Inspect(fi.Decl.Body, func(n ast.Node) bool {
 			if rs, ok := n.(*ast.RangeStmt); ok && loop == nil {
-				if call, ok := rs.X.(*ast.CallExpr); ok && isCallTo(finfo, call, "internal/parser/utils.HasVectorSelector") {
+				if call, ok := singleDef(finfo, fi.Decl.Body, rs.X).(*ast.CallExpr); ok && isCallTo(finfo, call, "internal/parser/utils.HasVectorSelector") {
 					loop = rs
 				}
 			}
@@ -489,7 +489,14 @@ func c20Dispatch(c *Ctx) {
 				if rs, isR := cur.(*ast.RangeStmt); isR {
 					if v, isID := rs.Value.(*ast.Ident); isID && info.Defs[v] == objOf(info, chkF) {
 						lst := objOf(info, rs.X)
+						// `for _, check := range cfg.GetChecksForEntry(ctx, gen, entry)` without a variable in between
+						if call, ok := ast.Unparen(rs.X).(*ast.CallExpr); ok && isCallTo(info, call, "internal/config.Config.GetChecksForEntry") {
+							okChk = len(call.Args) == 3 && objOf(info, call.Args[2]) == entryObj
+						}
 						ast.Inspect(lit.Body, func(n ast.Node) bool {
+							if lst == nil {
+								return false
+							}
 							if as, ok := n.(*ast.AssignStmt); ok && len(as.Rhs) == 1 && objOf(info, as.Lhs[0]) == lst {
 								if call, ok := as.Rhs[0].(*ast.CallExpr); ok && isCallTo(info, call, "internal/config.Config.GetChecksForEntry") {
 									okChk = len(call.Args) == 3 && objOf(info, call.Args[2]) == entryObj
